@@ -1,3 +1,249 @@
-use vh::runner::Ctx;
+//! C04 — memory held from the OS is bounded by peak demand, not by history length.
+//!
+//! Workload W (sizes/alignments, allocation order, interleaved frees, final free order) is
+//! repeated R times on one allocator. `held` = bytes mapped - bytes unmapped by the allocator's
+//! own MMAP/MREMAP/MUNMAP calls (exact counters of the sc interposer), sampled after every
+//! allocation. Deciding inequality, for every round i:
+//!     peakheld_i <= 4 * (round_total(W) + 1 MiB)
+//! The right-hand side does not depend on R: a loss of l bytes per round makes peakheld grow
+//! like R*l and cross it. R is chosen per workload so that even a loss of one smallest chunk
+//! per round would cross the bound within the run.
+use std::collections::BTreeMap;
+use std::sync::atomic::Ordering;
 
-pub fn run(_ctx: &Ctx) {}
+use proptest::prelude::*;
+use serde::{Deserialize, Serialize};
+use tiny_std::allocator::dlmalloc::Dlmalloc;
+
+use vh::runner::{no_panic, CaseReport, CaseResult, Ctx, Failure};
+
+#[derive(Debug, Clone, Serialize, Deserialize)]
+pub struct Workload {
+    /// (size, log2 alignment) in allocation order
+    pub blocks: Vec<(usize, u8)>,
+    /// after allocating block j, free the blocks listed (indices < = j) — interleaved frees
+    pub early_free: Vec<(u16, u16)>,
+    /// seed of the final free order permutation
+    pub free_seed: u64,
+    /// 0 = forward, 1 = reverse, 2 = seeded shuffle
+    pub free_mode: u8,
+}
+
+const MIB: usize = 1 << 20;
+
+fn held() -> usize {
+    sc::verif::MAPPED.load(Ordering::Relaxed).wrapping_sub(sc::verif::UNMAPPED.load(Ordering::Relaxed))
+}
+
+pub fn round_total(w: &Workload) -> usize {
+    w.blocks.iter().map(|b| b.0).sum()
+}
+
+pub fn bound(w: &Workload) -> usize {
+    4 * (round_total(w) + MIB)
+}
+
+/// Rounds needed so that losing one smallest chunk per round crosses the bound.
+pub fn rounds_for_full_sensitivity(w: &Workload) -> u64 {
+    let smallest = w.blocks.iter().map(|b| b.0).min().unwrap_or(1);
+    (2 * bound(w) as u64) / (smallest as u64 + 16) + 2
+}
+
+fn free_order(w: &Workload) -> Vec<usize> {
+    let n = w.blocks.len();
+    let mut v: Vec<usize> = (0..n).collect();
+    match w.free_mode {
+        0 => {}
+        1 => v.reverse(),
+        _ => {
+            let mut s = w.free_seed;
+            for i in (1..n).rev() {
+                s = vh::runner::splitmix(s);
+                v.swap(i, (s % (i as u64 + 1)) as usize);
+            }
+        }
+    }
+    v
+}
+
+pub struct RunStats {
+    pub rounds: u64,
+    pub full_sensitivity: bool,
+    pub max_ratio_to_round_total: f64,
+    pub max_peak: usize,
+    pub ops: u64,
+}
+
+/// Runs the workload; returns Err on a bound violation.
+pub fn run_workload(w: &Workload, op_budget: u64) -> Result<RunStats, Failure> {
+    let n = w.blocks.len();
+    let ops_per_round = (2 * n) as u64;
+    let want = rounds_for_full_sensitivity(w);
+    let cap = (op_budget / ops_per_round.max(1)).max(8);
+    let rounds = want.min(cap);
+    let full = rounds >= want;
+    let b = bound(w);
+    let order = free_order(w);
+    let mut early: BTreeMap<usize, Vec<usize>> = BTreeMap::new();
+    for &(after, which) in &w.early_free {
+        let after = after as usize % n;
+        let which = which as usize % (after + 1);
+        early.entry(after).or_default().push(which);
+    }
+    sc::verif::install();
+    sc::verif::clear_plan();
+    sc::verif::log_begin();
+    let base = held();
+    let mut a = Dlmalloc::new();
+    let mut ptrs: Vec<*mut u8> = vec![core::ptr::null_mut(); n];
+    let mut max_peak = 0usize;
+    let mut result = Ok(());
+    let mut done_rounds = 0u64;
+    'rounds: for r in 0..rounds {
+        let mut peak = 0usize;
+        for j in 0..n {
+            let (size, al) = w.blocks[j];
+            let p = match no_panic("malloc", || unsafe { a.malloc(size, 1usize << al.min(13)) }) {
+                Ok(p) => p,
+                Err(f) => {
+                    result = Err(f);
+                    break 'rounds;
+                }
+            };
+            if p.is_null() {
+                result = Err(Failure::new("footprint|malloc returned null without fault injection", format!("round {r}, block {j} ({size} bytes)")));
+                break 'rounds;
+            }
+            ptrs[j] = p;
+            let h = held().wrapping_sub(base);
+            if h > peak {
+                peak = h;
+            }
+            if let Some(list) = early.get(&j) {
+                for &k in list {
+                    if !ptrs[k].is_null() {
+                        unsafe { a.free(ptrs[k]) };
+                        ptrs[k] = core::ptr::null_mut();
+                    }
+                }
+            }
+        }
+        for &k in &order {
+            if !ptrs[k].is_null() {
+                unsafe { a.free(ptrs[k]) };
+                ptrs[k] = core::ptr::null_mut();
+            }
+        }
+        if peak > max_peak {
+            max_peak = peak;
+        }
+        done_rounds = r + 1;
+        if peak > b {
+            result = Err(Failure::new(
+                "footprint|held memory exceeds 4*(round_total+1MiB)",
+                format!("round {r} of {rounds}: the allocator held {peak} bytes from the OS, bound {b} (round_total {} bytes, {} blocks): memory held grows with the number of rounds", round_total(w), n),
+            ));
+            break 'rounds;
+        }
+    }
+    // release everything the instance still holds (Dlmalloc has no Drop)
+    let log = sc::verif::log_end();
+    let mut maps: BTreeMap<usize, usize> = BTreeMap::new();
+    for c in &log {
+        let err = c.ret > (-4096isize) as usize;
+        if !c.executed || err {
+            continue;
+        }
+        if c.nr == sc::nr::MMAP {
+            maps.insert(c.ret, c.args[1]);
+        } else if c.nr == sc::nr::MUNMAP {
+            ledger_unmap(&mut maps, c.args[0], c.args[1]);
+        } else if c.nr == sc::nr::MREMAP {
+            ledger_unmap(&mut maps, c.args[0], c.args[1]);
+            maps.insert(c.ret, c.args[2]);
+        }
+    }
+    for (&bse, &l) in &maps {
+        unsafe { libc::munmap(bse as *mut libc::c_void, l) };
+        // keep the global counters consistent with what the allocator itself would report
+        sc::verif::UNMAPPED.fetch_add(l, Ordering::Relaxed);
+    }
+    result?;
+    Ok(RunStats { rounds: done_rounds, full_sensitivity: full, max_ratio_to_round_total: max_peak as f64 / (round_total(w) + MIB) as f64, max_peak, ops: done_rounds * ops_per_round })
+}
+
+fn ledger_unmap(maps: &mut BTreeMap<usize, usize>, addr: usize, len: usize) {
+    let end = addr + len;
+    let hits: Vec<(usize, usize)> = maps.range(..end).filter(|(&b, &l)| b + l > addr).map(|(&b, &l)| (b, l)).collect();
+    for (b, l) in hits {
+        maps.remove(&b);
+        if b < addr {
+            maps.insert(b, addr - b);
+        }
+        if b + l > end {
+            maps.insert(end, b + l - end);
+        }
+    }
+}
+
+thread_local! {
+    static MAX_RATIO_MILLI: std::cell::Cell<u64> = const { std::cell::Cell::new(0) };
+}
+
+pub fn check_workload(ctx: &Ctx, w: &Workload) -> CaseResult {
+    let budget = if ctx.thorough() { 30_000_000 } else { 3_000_000 };
+    let st = run_workload(w, budget)?;
+    let mut rep = CaseReport::new();
+    let sizes: Vec<usize> = w.blocks.iter().map(|b| b.0).collect();
+    let small = sizes.iter().filter(|&&s| s < 256).count();
+    let large = sizes.iter().filter(|&&s| s >= 100 << 10).count();
+    let mut classes = 0;
+    for lim in [(0usize, 256usize), (256, 4096), (4096, 100 << 10), (100 << 10, usize::MAX)] {
+        if sizes.iter().any(|&s| s >= lim.0 && s < lim.1) {
+            classes += 1;
+        }
+    }
+    rep.nontrivial_if(classes >= 2 && st.full_sensitivity);
+    rep.class_if(small == sizes.len(), "all-small");
+    rep.class_if(large == sizes.len(), "all-large");
+    rep.class_if(classes >= 2, "mixed-size-classes");
+    rep.class_if(!w.early_free.is_empty(), "interleaved-frees");
+    rep.class_if(w.free_mode >= 2, "shuffled-free-order");
+    rep.class_if(!st.full_sensitivity, "low-sensitivity");
+    rep.class_if(st.full_sensitivity, "full-sensitivity");
+    rep.class_if(st.rounds >= 10_000, "10k+rounds");
+    let milli = (st.max_ratio_to_round_total * 1000.0) as u64;
+    MAX_RATIO_MILLI.with(|m| {
+        if milli > m.get() {
+            m.set(milli);
+        }
+    });
+    Ok(rep)
+}
+
+fn size_class() -> impl Strategy<Value = usize> {
+    prop_oneof![
+        4 => 1usize..256,
+        3 => 256usize..4096,
+        2 => 4096usize..(100 << 10),
+        1 => (100usize << 10)..(2 << 20),
+    ]
+}
+
+pub fn workload_strategy() -> impl Strategy<Value = Workload> {
+    let blocks = prop_oneof![
+        // all-small, tiny workloads: very many rounds
+        3 => prop::collection::vec((1usize..256, 0u8..5), 1..12),
+        3 => prop::collection::vec((size_class(), prop_oneof![4 => 0u8..5, 1 => 5u8..13]), 1..60),
+        1 => prop::collection::vec((size_class(), 0u8..5), 60..200),
+        2 => prop::collection::vec(((100usize << 10)..(2 << 20), 0u8..5), 1..12),
+        1 => prop::collection::vec((prop_oneof![(60usize << 10)..(70 << 10), (2usize << 20) - 4096..(2 << 20) + 4096], 0u8..5), 1..8),
+    ];
+    (blocks, prop::collection::vec((any::<u16>(), any::<u16>()), 0..8), any::<u64>(), 0u8..3).prop_map(|(blocks, early_free, free_seed, free_mode)| Workload { blocks, early_free, free_seed, free_mode })
+}
+
+pub fn run(ctx: &Ctx) {
+    ctx.run_prop("single-thread", ctx.cases(60, 4000), workload_strategy(), |w| check_workload(ctx, w));
+    ctx.extra("max_ratio_peakheld_to_round_total_plus_1MiB_milli", serde_json::json!(MAX_RATIO_MILLI.with(|m| m.get())));
+    crate::galloc_driver::run(ctx);
+}
